@@ -1267,6 +1267,30 @@ fn run(args: &[String]) -> i32 {
             let _ = std::fs::create_dir_all(Path::new(dir).join(sub));
         }
         let _ = std::fs::create_dir_all(dir);
+        // relative program names (seed C15-c1): the child binary under `relbin/` of the work directory and
+        // of every sub-directory a history may configure as cwd; this process (the "interpreter") runs
+        // IN the work directory, so the same relative path also exists relative to the parent's cwd
+        if let Some(w) = util::opt(args, "--worker") {
+            for base in std::iter::once(PathBuf::from(dir)).chain(SUBDIRS.iter().map(|s| Path::new(dir).join(s))) {
+                let d = base.join("relbin");
+                let _ = std::fs::create_dir_all(&d);
+                let dst = d.join("nvh-child");
+                let fresh = match (std::fs::metadata(w), std::fs::metadata(&dst)) {
+                    (Ok(a), Ok(b)) => {
+                        use std::os::unix::fs::MetadataExt;
+                        a.ino() == b.ino() && a.dev() == b.dev()
+                    }
+                    _ => false,
+                };
+                if !fresh {
+                    let _ = std::fs::remove_file(&dst);
+                    if std::fs::hard_link(w, &dst).is_err() {
+                        let _ = std::os::unix::fs::symlink(w, &dst);
+                    }
+                }
+            }
+            let _ = std::env::set_current_dir(dir);
+        }
     }
     if let Some(w) = util::opt(args, "--worker") {
         let _ = WORKER.set(w.to_string());
@@ -1619,6 +1643,20 @@ fn gen_spawn_history(rng: &mut Rng, out: &mut Out, nvh: &str, dir: &str, id: &st
             ops.push(if rng.chance(2, 3) { OpRec::StdinText(pick_text(rng)) } else { OpRec::StdinNull });
         }
     }
+    // one history in six names the program by a RELATIVE path with a directory component: the child must get
+    // exactly that string as argv[0], and the file is looked up under the configured cwd (it exists under
+    // the work directory and each of its sub-directories, see `run`)
+    let nvh = if rng.chance(1, 6) {
+        let d = match rng.below(3) {
+            0 => dir.to_string(),
+            1 => ".".to_string(),
+            _ => format!("{dir}/{}", rng.pick(SUBDIRS)),
+        };
+        ops.push(OpRec::Cwd(d));
+        *rng.pick(&["relbin/nvh-child", "./relbin/nvh-child", "relbin/../relbin/nvh-child"])
+    } else {
+        nvh
+    };
     let s = shadow(&ops);
     let mut caps = ProcessCaps::defaults();
     caps.default_timeout_ms = SPAWN_TIMEOUT_MS;
